@@ -31,6 +31,12 @@ def check(ctx):
     rows = R.run_kind(ctx, 'multib', shards=min(R.NCPU, 8))
     R.compare(ctx, rows, lambda d: (flag(d), d.get('trace')), 'C04 higher-order / combining operators (multib): delivered values and terminal',
               nontrivial=lambda c, gd: gd.get('trace', '-') != '-', max_report=2)
+    # ... and of the re-subscribing operators (Retry*, RepeatWith, While*, DoWhile*, Catch, OnErrorResumeNextWith, Concat): the values of
+    # exactly the attempts the configuration dictates, in order, and the defined terminal - the delivered trace of the kind=resub runs
+    # (loops = closed forms: RoProps/C15), read through C04's projection
+    rows = R.run_kind(ctx, 'resub')
+    R.compare(ctx, rows, lambda d: (flag(d), strip_ctx(d.get('trace'))), 'C04 re-subscribing operators: delivered values and terminal',
+              nontrivial=lambda c, gd: gd.get('trace', '-') != '-', max_report=2)
     # SequenceEqual over two synchronous sources: the model of the code (RoModel/Ops/SeqEq.lean) with equality; the documented
     # function outside the known class (built on Zip2: blind to what lies beyond the shorter sequence)
     rows = R.run_kind(ctx, 'seqeq', shards=2)
